@@ -16,10 +16,13 @@ claim("C01", "proof", T1 + " (bit masks as sets of naturals; heap theory B with 
       "suppress_unifurcations / collapse_basal_bifurcation re-establish that; the per-edge compile phase after the loop is joined to it only by the bounded driver; "
       "the splits-equivalence theorem is not re-proved",
       "DESIGN.md section 5 C01, section 9")
-claim("C02", "proof", T1 + " (character-class theory + exhaustive code-point enumeration); " + T2,
+claim("C02", "proof", T1 + " (character-class theory + exhaustive code-point enumeration; forwarding obligations on the AST for the write glue); " + T2,
       "Proved (T1): for every code point, each tree writer's protect class covers every character NexusTokenizer treats specially (both regexes and the "
       "tokenizer sets extracted from the AST each run; cross-checked on all 1,114,112 code points); the writer's rooting token and the reader's "
-      "rooting interpretation are inverse tables. Bounded (T2): the full write/read round trip.",
+      "rooting interpretation are inverse tables; the write side up to the writer (AST obligations): as_string / write(file=) / write(path=) hand the caller's schema and "
+      "options, untouched, to one writer made for that schema; a tree list gives it itself, a tree a new list over the tree's own namespace holding exactly that tree (not a "
+      "copy, not migrated), and the caller's destination; as_string returns the whole buffer, a path is opened for writing (not appending) and closed. "
+      "Bounded (T2): the full write/read round trip.",
       "tokenizer/parser state machines and xml.etree are not proved; the round trip itself is bounded",
       "DESIGN.md section 5 C02")
 claim("C16", "proof", "contract-based frame verification by a modular effect analysis of the real AST; region contract on the Fitch loop of fitch_down_pass "
